@@ -280,3 +280,47 @@ Qed.
 Lemma succ'_is_remove_foreign g n :
   succ' g n = remove_foreign_inplace (g_foreign g) (g_succ g n).
 Proof. now rewrite remove_foreign_inplace_is_filter. Qed.
+
+(* ---- the outcome does not depend on the schedule (mt_consistent graphs) ... ---- *)
+Lemma outcome_schedule_independent g c d0 (rank : node -> nat) tr1 tr2 st1 st2 :
+  (forall n x, In x (succ' g n) -> rank x < rank n) ->
+  c_xroots c = [] -> closed_nodes g d0 -> mt_consistent g ->
+  accepts g c d0 tr1 = Some st1 -> returned st1 = Some true ->
+  accepts g c d0 tr2 = Some st2 -> returned st2 = Some true ->
+  forall n, has g (dst st1) n = has g (dst st2) n.
+Proof.
+  intros Hr Hx Hc Hm A1 R1 A2 R2 n.
+  rewrite (copy_result_lemma g c d0 rank Hr tr1 st1 (S (rank (c_root c))) Hx Hc Hm (Nat.lt_succ_diag_r _) A1 R1 n).
+  rewrite (copy_result_lemma g c d0 rank Hr tr2 st2 (S (rank (c_root c))) Hx Hc Hm (Nat.lt_succ_diag_r _) A2 R2 n).
+  reflexivity.
+Qed.
+
+(* ... and does depend on it otherwise: the graph of the in-call F12 witness, copied into an empty
+   digest-keyed destination in the other probe order (manifest 2 probed before blob 3 is pushed), ends
+   with everything present *)
+Definition tr_twin2_ok : list event :=
+ [ExB 5; ExE 5 false; SFB 5; SFE 5; SFC 5;
+  ExB 2; ExE 2 false; SFB 2; SFE 2; SFC 2;
+  ExB 0; ExE 0 false; Cb CPre 0; SFB 0; SFE 0; PuB 0 false; PuE 0 false POk; SFC 0; Cb CPost 0;
+  ExB 1; ExE 1 false; Cb CPre 1; SFB 1; SFE 1; PuB 1 false; PuE 1 false POk; SFC 1; Cb CPost 1;
+  Cb CPre 2; PuB 2 false; PuE 2 false POk; Cb CPost 2;
+  ExB 4; ExE 4 false; SFB 4; SFE 4; SFC 4;
+  ExB 3; ExE 3 true; Cb CSkip 3;
+  Cb CPre 4; PuB 4 false; PuE 4 false POk; Cb CPost 4;
+  Cb CPre 5; PuB 5 false; PuE 5 false POk; TagB 5; TagE 5; Cb CPost 5; Ret true].
+
+Lemma outcome_schedule_dependent_without_mt_consistency :
+  exists g c (rank : node -> nat) tr1 tr2 st1 st2 n,
+    (forall m x, In x (succ' g m) -> rank x < rank m) /\ c_xroots c = [] /\ closed_nodes g [] /\
+    accepts g c [] tr1 = Some st1 /\ returned st1 = Some true /\
+    accepts g c [] tr2 = Some st2 /\ returned st2 = Some true /\
+    has g (dst st1) n <> has g (dst st2) n.
+Proof.
+  exists g_twin2, c_twin2, (fun n => n), tr_twin2, tr_twin2_ok. eexists. eexists. exists 1.
+  split.
+  { intros m x. destruct m as [|[|[|[|[|[|m]]]]]]; simpl; intuition lia. }
+  split; [reflexivity|]. split; [intros m x []|].
+  split; [vm_compute; reflexivity|]. split; [reflexivity|].
+  split; [vm_compute; reflexivity|]. split; [reflexivity|].
+  vm_compute. discriminate.
+Qed.
